@@ -1,8 +1,10 @@
 /-
   C02 with path-kind changes, end to end: the work record is the one derived from the patcher model
   (Props/C02E2E.lean), the hypothesis on kinds is `BenignKindChanges` (Props/C02Kinds.lean) instead of
-  `NoKindClash`.  `BenignKindChanges` speaks about the recorded work (which new files are transposition outputs,
-  which old files are sources), so it is stated for the work the patcher returns.
+  `NoKindClash`.  `BenignKindChanges` used to speak about the recorded work (which old files are transposition
+  sources), so it is stated for the work the patcher returns; since the repair of finding F8 (3) its only clause
+  is `DirOrder new old`, which does not mention the work: `inplace_commit_of_patch` is the statement with that
+  hypothesis alone.
 -/
 import Wharf.Props.C02E2E
 import Wharf.Props.C02Kinds
@@ -24,6 +26,21 @@ theorem inplace_commit_of_patch_kinds_partial (P : Rsync.Params) (hbs : 0 < P.bs
   commit_correct_kinds_partial old new _ order₁ order₂ hold hnew hb (work_of_patch_ok P hbs hmx old new r h)
     ho₁ ho₂
 
+/-- C02 end to end, the headline statement: for well-formed builds whose new directories are listed parents
+    first (`DirOrder`, as `tlc.Walk` lists them), any successful result of the patcher model on the written patch
+    leads to a commit that ends with exactly the new build, for every pair of visiting orders — whatever paths
+    change kind between the builds (since the repair of finding F8 (3)). -/
+theorem inplace_commit_of_patch (P : Rsync.Params) (hbs : 0 < P.bs) (hmx : 0 < P.maxDataOp)
+    (old new : Build) (r : Res) (order₁ order₂ : List Path)
+    (hold : BuildWF old) (hnew : BuildWF new) (hdo : DirOrder new old)
+    (h : patch (C01.envOf P.bs (poolFiles old) (poolFiles new) none)
+          (writePatch P (poolFiles old) (poolFiles new)) = .ok r)
+    (ho₁ : order₁.Perm (sourcesOf old new (workOf old new r.calls)))
+    (ho₂ : order₂.Perm (sourcesOf old new (workOf old new r.calls))) :
+    ∃ t', commit old new (workOf old new r.calls) order₁ order₂ (treeOfBuild old) = .ok t' ∧ Holds t' new :=
+  commit_correct old new _ order₁ order₂ hold hnew hdo (work_of_patch_ok P hbs hmx old new r h) ho₁ ho₂
+
 -- #print axioms inplace_commit_of_patch_kinds_partial   -- [propext, Classical.choice, Quot.sound]
+-- #print axioms inplace_commit_of_patch                 -- [propext, Classical.choice, Quot.sound]
 
 end Wharf.C02
